@@ -29,6 +29,7 @@ func c05(c *Ctx) {
 	r.Rule("R05.K", "temp keys: the tmp_aes_key / tmp_aes_iv expressions extracted from generateTempKeys are the formulas of the key-exchange document", 2)
 	if c.verifySummaries("R05.K") {
 		c.tempKeys("R05.K")
+		c.cipherKeying("R05.K", true)
 	}
 
 	// ---- R05.V ------------------------------------------------------------------------------------
